@@ -292,6 +292,7 @@ Job* makeJob(JobDescriptor info) {
     job->component_requests.resize(info.component_info_arr_size);
     job->job_begin = convert(info.on_job_begin, convert(job));
     job->job_end = convert(info.on_job_end, convert(job));
+    job->require_entity = info.entity_required;
 //    mustache::Logger{}.info("Args count: %d", info.component_info_arr_size);
     for (uint32_t i = 0; i < info.component_info_arr_size; ++i) {
         auto t = info.component_info_arr[i];
